@@ -67,7 +67,8 @@ def handle (toks : List String) : Option String :=
       | .ok p => s!"ok:{Hex.ofBytes p}" | .err _ => "err" | .panic => "panic"
     let g := match got with | none => "none" | some x => Hex.ofBytes x
     let jn := match PodOption.serdeSer N v with | none => 1 | some _ => 0
-    pure s!"get={g} try={tr} mem={Hex.ofBytes (PodOption.wrap v)} json_null={jn}"
+    let de := match PodOption.serdeDe N o with | .ok _ => "ok" | .err _ => "err" | .panic => "panic"
+    pure s!"get={g} try={tr} mem={Hex.ofBytes (PodOption.wrap v)} json_null={jn} de={de} bin={de}"
   | ["optu64", tag, n] => do
     let n ← n.toNat?
     let N : PodOption.Nullable Nat := ⟨0⟩
@@ -78,7 +79,8 @@ def handle (toks : List String) : Option String :=
       | .ok p => s!"ok:{enc p}" | .err _ => "err" | .panic => "panic"
     let g := match got with | none => "none" | some x => enc x
     let jn := match PodOption.serdeSer N n with | none => 1 | some _ => 0
-    pure s!"get={g} try={tr} mem={enc (PodOption.wrap n)} json_null={jn}"
+    let de := match PodOption.serdeDe N o with | .ok _ => "ok" | .err _ => "err" | .panic => "panic"
+    pure s!"get={g} try={tr} mem={enc (PodOption.wrap n)} json_null={jn} de={de} bin={de}"
   | _ => none
 
 end Driver.PodD
